@@ -131,6 +131,11 @@ def main(argv=None):
                 rec = dict(sig=None, nontrivial=False, findings=[], probes={}, faults={},
                            skips={"unfinished_case_wall_cap": 1}, sample=None, events=0, sim_runs=0, harness=[],
                            unfinished=True)
+            except core.HarnessError as e:
+                from . import runner as _runner
+                _runner.abandon_call()
+                rec = dict(sig=None, nontrivial=False, findings=[], probes={}, faults={}, skips={},
+                           sample=None, events=0, sim_runs=0, harness=[str(e)[:400]])
             except Exception:
                 rec = dict(sig=None, nontrivial=False, findings=[], probes={}, faults={}, skips={},
                            sample=None, events=0, sim_runs=0,
